@@ -24,6 +24,7 @@ RULE = ("Generated: (raw) problems with 1-12 variables and 0-14 rows of all four
         "infeasibility; 'inaccurate': no claim. Split: slice of x per interval feasible/optimal, value = sum. "
         "Non-trivial: optimal with >= 3 row classes present and >= 2 classes tight at the optimum, or a MIP whose "
         "LP relaxation is strictly better, or a proven-infeasible case. Distinct = distinct spec hash.")
+RULE += (' After a relaxed run (make_soft_problem) the same problem object is optimised again as it stands and judged as the MIP it was built as (flags remembered before any optimise call).')
 ASSUMPTIONS = ["scipy's HiGHS (linprog / milp with mip_rel_gap=0) is the reference optimum; on a MIP disagreement an exact enumeration of the booleans (<= 12) or a feasibility witness decides (DESIGN 12)",
                "interface='ortools' cannot be executed (package absent); SCS/OSQP (first-order, no usable objective "
                "tolerance) are not exercised",
